@@ -670,7 +670,55 @@ def oracle_c10(ctx: Ctx, n):
         except Exception as e:  # noqa: BLE001
             return (f"error {e!r}", ())
 
-    scenarios = []
+    # near-key siblings: two atoms that differ in exactly ONE component (variable, operator, spelling of the value, side of the literal).
+    # A cache whose key leaves that component out answers the probe with what it computed for the sibling.
+    VL = ["python_version", "python_full_version", "platform_release", "implementation_version"]
+
+    def atom_text(name, op, val, rev=False):
+        if rev:
+            flip = {">=": "<=", "<=": ">=", ">": "<", "<": ">"}.get(op, op)
+            return f'"{val}" {flip} {name}'
+        return f'{name} {op} "{val}"'
+
+    def partners(name):
+        out = [f'{name} >= "3.8"', f'{name} < "3.10"', f'{name} != "3.9"']
+        if name in ("python_version", "python_full_version"):
+            out += ['python_version >= "3.8"', 'python_full_version < "3.9.5"', 'python_version < "3.10"', 'python_full_version >= "3.8.0"']
+        return out
+
+    sibling = []   # (history, probe), enumerated; the quick tier samples it but keeps every in-list / name pair
+    must = []
+    for op in [">=", "<", "==", "!=", "in", "not in", "~=", ">", "<="]:
+        vals = ["3.8, 3.9", "3.7,3.8"] if "in" in op else ["3.8", "3.10", "3.9.1"]
+        for bn in VL:
+            for val in vals[:2]:
+                base = atom_text(bn, op, val)
+                sibs = [(atom_text(sn, op, val), "name") for sn in VL if sn != bn]
+                sibs += [(atom_text(bn, o2, val), "op") for o2 in ([">=", "<", "==", "!="] if "in" not in op else ["in", "not in"]) if o2 != op]
+                if "in" not in op:
+                    sibs += [(atom_text(bn, op, val + ".0"), "value"), (atom_text(bn, op, val, rev=True), "side")]
+                for sib, how in sibs:
+                    for kind in ("and", "or"):
+                        pb = rng.choice(partners(bn))
+                        sn_ = sib.split()[0] if not sib.startswith('"') else bn
+                        ps = rng.choice(partners(sn_ if sn_ in VL else bn))
+                        hist = [(kind, sib, ps), (rng.choice(["and", "or"]), ps, sib)]
+                        item = (hist, (kind, base, pb))
+                        (must if ("in" in op and how == "name") else sibling).append(item)
+    for g_name, g_vals in (("sys_platform", ["linux", "win32"]), ("os_name", ["nt", "posix"])):
+        for op in ("==", "!=", "in", "not in"):
+            base = atom_text(g_name, op, g_vals[0])
+            for sib in (atom_text("os_name" if g_name == "sys_platform" else "sys_platform", op, g_vals[0]), atom_text(g_name, "!=" if op == "==" else "==", g_vals[0]),
+                        atom_text(g_name, op, g_vals[0], rev=True)):
+                for kind in ("and", "or"):
+                    other = f'{g_name} != "{g_vals[1]}"'
+                    sibling.append(([(kind, sib, other), (kind, other, sib)], (kind, base, other)))
+    rng.shuffle(sibling)
+    n_sib = len(sibling) if ctx.tier != "quick" else max(0, min(len(sibling), n // 3))
+    sibling_scenarios = must + sibling[:n_sib]
+    ctx.coverage["streams"]["oracle-C10-sibling-scenarios"] = len(sibling_scenarios)
+
+    scenarios = list(sibling_scenarios)
     for k in range(n):
         if k % 3 == 0:
             xs, ys = rng.choice(paired)
